@@ -40,6 +40,8 @@ type c18Case struct {
 	Test     string        `json:"test"`
 	Before   int           `json:"calls_before"`
 	Matchers []MatcherSpec `json:"matchers,omitempty"`
+	// ViaUpdate (text): the id already holds another document; the document is stored by an updating run (the rewrite path)
+	ViaUpdate bool `json:"stored_by_an_update_of_another_document,omitempty"`
 }
 
 type yamlDemoSpec struct {
@@ -71,6 +73,8 @@ func (s yamlDemoSpec) build(reverse bool) yamlDemo {
 var invalidYAML = []string{"a: 1\na: 2\n", "{y: 1, y: 2}", "x: &d\n  k: 1\nsvc:\n  <<: *d\n  image: a\n  image: b\n", "# merged with <<\nimage: a\nimage: b\n",
 	"base: &b {k: 1}\none:\n  <<: *b\n---\nscript: a\nscript: b\n", "a: [1, 2", "a: 'unterminated", "a: \"unterminated", "a: b: c", "a: *missing", "k: &x 1\nb: *y\n", "\tindented: with tab", "a: 1\n b: 2\n", "{a: 1", "- a\n-b: [", "a: 1\n---\nb: *nope\n", "? [", "a: |\nnot indented\nb: {"}
 
+const c18Previous = "previous: document\nlist:\n  - 1\n"
+
 func genC18(t *rapid.T) c18Case {
 	c := c18Case{Test: genTestName(t), Before: rapid.IntRange(0, 2).Draw(t, "before")}
 	if rapid.Bool().Draw(t, "testa") {
@@ -100,6 +104,7 @@ func genC18(t *rapid.T) c18Case {
 		}
 		c.Doc = BS(doc)
 		c.Form = rapid.SampledFrom([]string{"string", "bytes"}).Draw(t, "form")
+		c.ViaUpdate = c.Kind == "text" && doc != c18Previous && rapid.IntRange(0, 2).Draw(t, "viaupdate") == 0
 	case k < 6:
 		doc := rapid.SampledFrom(invalidYAML).Draw(t, "invalid")
 		if rapid.Bool().Draw(t, "appendvalid") {
@@ -174,7 +179,24 @@ func checkC18(c c18Case) error {
 		os.MkdirAll(filepath.Dir(file), 0o755)
 		os.WriteFile(file, []byte(refRender(es)), 0o644)
 	}
-	newProcess(Mode{})
+	wantOut := oAdded
+	if c.ViaUpdate && c.Kind == "text" {
+		newProcess(Mode{})
+		cfg0 := spec.build(root)
+		ft0 := newFakeT(c.Test)
+		for i := 1; i <= c.Before; i++ {
+			filler(i).invoke(cfg0, ft0)
+		}
+		if r0 := (Call{API: "yaml", Doc: c18Previous, Form: "string"}).invoke(cfg0, ft0); len(r0.Errors) != 0 {
+			return fmt.Errorf("harness: storing the previous document: %q", clipAll(r0.Errors))
+		}
+		filler(50).invoke(cfg0, ft0)
+		ft0.finish()
+		newProcess(Mode{Update: "true"})
+		wantOut = oUpdated
+	} else {
+		newProcess(Mode{})
+	}
 	cfg := spec.build(root)
 	ft := newFakeT(c.Test)
 	for i := 1; i <= c.Before; i++ {
@@ -257,8 +279,8 @@ func checkC18(c c18Case) error {
 		}
 		return nil
 	}
-	if out != oAdded {
-		return fmt.Errorf("recording (%s): outcome %q errors=%q", c.Kind, out, clipAll(r.Errors))
+	if out != wantOut {
+		return fmt.Errorf("recording (%s): outcome %q, want %q; errors=%q", c.Kind, out, wantOut, clipAll(r.Errors))
 	}
 	// one more call of the test after the document (its entry follows the document in the file)
 	if ra := filler(50).invoke(cfg, ft); len(ra.Errors) != 0 {
@@ -398,6 +420,9 @@ func classifyC18(c c18Case) ([]string, bool) {
 	cls := []string{"kind_" + c.Kind}
 	nt := false
 	doc := string(c.Doc)
+	if c.Kind == "text" && c.ViaUpdate {
+		cls = append(cls, "stored_by_an_update_of_another_document")
+	}
 	if c.Kind == "text" {
 		for _, l := range strings.Split(doc, "\n") {
 			switch {
